@@ -7,8 +7,10 @@ import array
 import collections
 import functools
 import hashlib
+import os
 import pickle
 import sys
+import threading
 import time
 import warnings
 from contextlib import nullcontext, suppress
@@ -461,11 +463,15 @@ class DiskCache(_CacheBase):
     def put(self, key: Hashable, value: Any) -> None:
         """Insert a key value pair into the cache."""
         file_path = self._get_file_path(key)
-        with file_path.open("wb") as f:
+        # Write to a temporary file and rename it: a concurrent `__contains__`/`get`
+        # (another thread or process using the directory) never sees a partial entry.
+        tmp_path = file_path.with_name(f"{file_path.stem}.{os.getpid()}.{threading.get_ident()}.tmp")
+        with tmp_path.open("wb") as f:
             if self.use_cloudpickle:
                 cloudpickle.dump(value, f)
             else:
                 pickle.dump(value, f)
+        os.replace(tmp_path, file_path)
         if self.with_lru_cache:
             self.lru_cache.put(key, value)
         self._evict_if_needed()
